@@ -1,3 +1,5 @@
+import Driver.Base
 import Driver.Ops
+import Driver.Plugins
 import Driver.Funcs
 import Driver.Main
